@@ -234,7 +234,8 @@ def run(ctx, t0):
     facts = ctx.facts()
     pat.FACTS = facts
     rules = [rule_emitters(facts), _rename(C05.rule_commit(facts), "C15.R2"), _rename(C05.rule_staging(facts), "C15.R3"),
-             _rename(C05.rule_refill(facts), "C15.R4"), _rename(C05.rule_constants(facts), "C15.R4b"), rule_allow_incomplete(facts), rule_sink_sites(facts), _rename(__import__('rules.C01', fromlist=['x']).rule_window(facts), "C15.R7")]
+             _rename(C05.rule_refill(facts), "C15.R4"), _rename(C05.rule_constants(facts), "C15.R4b"), rule_allow_incomplete(facts), rule_sink_sites(facts), _rename(__import__('rules.C01', fromlist=['x']).rule_window(facts), "C15.R7"),
+             _rename(C05.rule_carry(facts), "C15.R8")]
     expl = ("Static, structural clauses only: who-may-emit enumeration of the window's append calls with control dependence on the update "
             "flag, the dry-run / commit protocol, provenance of staged slices and positions, refill guards evaluated over all fill levels, "
             "who-reads enumeration of allow_incomplete and control dependence / must-pass-through in Stream::finish. The lag figure and "
